@@ -213,6 +213,15 @@ def check(ctx) -> Result:
     pr = PR.methods["_recombine_mapped_result"]
     r = [x for x in walk_no_nested(pr.node) if isinstance(x, ast.Return)]
     res.frozen(len(r) == 1 and src(r[0].value) == "SamplingResult(mapped_result, self.input)", "M4-recombine", "SamplingResult._recombine_mapped_result", pr.site(), pr.qualname, "new result from the mapped counts and the same input", "recombination changed", construct=src(r[0]) if r else "")
+    # a result is never changed by reading it: no method other than the constructor writes the object or what it holds
+    from ..rules import rc_owner as _rc
+    ro = []
+    for ci_, rel_ in ((SR, SIMR), (PR, SAMR)):
+        for name_, f_ in ci_.methods.items():
+            if name_ not in ("__init__", "__post_init__") and f_.kind != "setter":
+                ro.append((rel_, f"{ci_.name}.{name_}", None))
+    nro = _rc.c1_self_readonly(ctx, res, ro, rule="C1-result-read-only")
+    res.floor("read-only result methods", nro, 10)
     from ..rules import rz_falsy
     nz = rz_falsy.none_checks(ctx, res, "C17", ())
     res.floor("Z functions scanned", nz, 3)
